@@ -67,8 +67,8 @@ func c06(r *Report) {
 	tcs := allocsOf(cert, "crypto/tls.Certificate")
 	tmpls := allocsOf(cert, "crypto/x509.Certificate")
 	if len(tcs) != 1 || len(tmpls) != 1 {
-		r.Rule("C06.R1", "")
-		r.Undecided("(*M/mitm.Config).cert: literals", "UNRESOLVED: expected one tls.Certificate and one x509.Certificate literal")
+		r.Rule("C06.R4", "one host name end to end: stripped of its port, it is the cache key (lookup and store), the subject and the SAN")
+		r.Fail("flow", "(*M/mitm.Config).cert: the template and the tls.Certificate are built afresh for each issuance", fmt.Sprintf("found %d x509.Certificate and %d tls.Certificate values allocated in cert(), want 1 and 1: a template shared between calls keeps fields of an earlier host (its SANs) and is mutated by concurrent handshakes without a lock", len(tmpls), len(tcs)), nil, cert.Pos())
 		return
 	}
 	tc := litFieldStores(tcs[0])
